@@ -34,7 +34,7 @@ class Calls:
                      'is_none', 'hashable', 'callraises', 'call', 'fresh_obj', 'is_int_key', 'int_key', 'ite', 'attr',
                      'has_attr', 'catches', 'exc_is', 'iff', 'dynattr', 'truthy', 'key_at', 'idx_of', 'old', 'is_fresh',
                      'seq_of', 'card', 'same_elements', 'typeof', 'callv', 'callvraises', 'isinst_dyn', 'lt', 'unhashable_any',
-                     'mhas', 'mget', 'shas', 'without_key', 're_compile_raises', 're_compile', 'as_map', 'as_seq', 'as_set', 'sat', 'slen', 'mlen', 'methraises', 'methcall', 'gen_of', 'nth_where', 'count_where', 'ghost', 'zlen', 'isfinite', 'ret_make_converter', 'ret_into_data', 'ret', 'clsref', 'id_of'}
+                     'mhas', 'mget', 'shas', 'without_key', 're_compile_raises', 're_compile', 'as_map', 'as_seq', 'as_set', 'sat', 'slen', 'mlen', 'methraises', 'methcall', 'gen_of', 'nth_where', 'count_where', 'ghost', 'zlen', 'isfinite', 'ret_make_converter', 'ret_into_data', 'ret', 'clsref', 'id_of', 'fnref', 'called', 'hash_of', 'forall_bools4'}
 
     # ------------------------------------------------------------------------------------
     def ev_Call(self, node, st):
@@ -50,6 +50,18 @@ class Calls:
             # spec quantifiers take lambdas unevaluated
             if isinstance(f, VBuiltin) and f.name in ('spec.forall', 'spec.exists', 'spec.forall_val', 'spec.exists_val'):
                 return self.spec_quant(f.name[5:], node, s)
+            if isinstance(f, VBuiltin) and f.name == 'spec.forall_bools4':
+                # finite quantifier: all 16 assignments of four booleans
+                lam = node.args[0]
+                conj = []
+                import itertools
+                for combo in itertools.product([False, True], repeat=4):
+                    env = dict(s.env)
+                    for a_, b_ in zip(lam.args.args, combo):
+                        env[a_.arg] = VBool(z3.BoolVal(b_))
+                    r, s2 = self.ev1(lam.body, State(env, s.pc, s.notes))
+                    conj.append(self.truth(r, s2))
+                return [(VBool(z3.And(conj)), s)]
             if isinstance(f, VBuiltin) and f.name in ('spec.nth_where', 'spec.count_where'):
                 return self.spec_where(f.name[5:], node, s)
             if isinstance(f, VBuiltin) and f.name == 'spec.gen_of':
@@ -171,7 +183,12 @@ class Calls:
         if g is not None:
             cr = g
 
+        if rk == 'new':
+            resv = VVal(res, fresh=True, kind=None)
+
         def finish(s2):
+            log = s2.env.get('$calls')
+            s2.env['$calls'] = VTuple((log.items if isinstance(log, VTuple) else ()) + (VVal(f.term),))
             if total:
                 return [(resv, s2)]
             s_ok = s2.fork().add(z3.Not(cr))
@@ -405,6 +422,12 @@ class Calls:
             if n not in env:
                 raise OutOfSubset(f'contract clause refers to unknown name {n}')
             e[n] = env[n]
+        for k2, v2 in env.items():
+            if k2.startswith('$'):
+                e[k2] = v2
+        for k2, v2 in st.env.items():
+            if k2.startswith('$') and k2 not in e:
+                e[k2] = v2
         saved = (self.cur_module, self.spec_mode, self.cur_class)
         self.cur_module, self.spec_mode = '$spec', True
         try:
@@ -549,7 +572,7 @@ class Calls:
             for cond in gen.ifs:
                 nxt = []
                 for cs in cur_states:
-                    for r, s2 in self.ev(cond, cs):
+                    for r, s2 in self.ev_bool(cond, cs):
                         if isinstance(r, Raised):
                             raise OutOfSubset('raising comprehension condition', node)
                         nxt.append((r, s2))
